@@ -1,7 +1,7 @@
 //go:build verif
 
 // Export shim for the C14 driver (compiled into package proxy through the build overlay only).
-// It reads the unexported resolved upstream list and exposes three small unexported helpers.
+// It reads the unexported resolved upstream list and exposes two small unexported helpers.
 package proxy
 
 // VerifUpstream is the projection of one resolved *UpstreamConfig compared by Corr_C14.
@@ -18,7 +18,9 @@ type VerifUpstream struct {
 	SkipPreflight, PassTok  bool
 	ProviderSlug, Cookie    string
 	HMAC                    bool
-	OptionsLeft             bool // RouteConfig.Options still non-nil after loading
+	FromScheme, FromHost    string // SimpleRoute.FromURL (empty for a rewrite route)
+	ToScheme, ToHost        string // SimpleRoute.ToURL / RewriteRoute.ToTemplate
+	OptionsLeft             bool   // RouteConfig.Options still non-nil after loading
 	ExtraLeft               int  // len(ExtraRoutes) after loading
 }
 
@@ -39,11 +41,20 @@ func VerifResolved(uc *UpstreamConfigs) []VerifUpstream {
 			ProviderSlug: c.ProviderSlug, Cookie: c.CookieName, HMAC: c.HMACAuth != nil,
 			OptionsLeft: c.RouteConfig.Options != nil, ExtraLeft: len(c.ExtraRoutes),
 		}
-		switch c.Route.(type) {
+		switch rt := c.Route.(type) {
 		case *SimpleRoute:
 			v.Kind = 0
+			if rt.FromURL != nil {
+				v.FromScheme, v.FromHost = rt.FromURL.Scheme, rt.FromURL.Host
+			}
+			if rt.ToURL != nil {
+				v.ToScheme, v.ToHost = rt.ToURL.Scheme, rt.ToURL.Host
+			}
 		case *RewriteRoute:
 			v.Kind = 1
+			if rt.ToTemplate != nil {
+				v.ToScheme, v.ToHost = rt.ToTemplate.Scheme, rt.ToTemplate.Host
+			}
 		default:
 			v.Kind = 2
 		}
@@ -57,9 +68,6 @@ func VerifResolved(uc *UpstreamConfigs) []VerifUpstream {
 
 // VerifResolveTemplates calls the real resolveTemplates (Go map iteration order included).
 func VerifResolveTemplates(raw []byte, vars map[string]string) []byte { return resolveTemplates(raw, vars) }
-
-// VerifURLParseOK is the url oracle: does the real urlParse accept the string?
-func VerifURLParseOK(scheme, s string) bool { _, err := urlParse(scheme, s); return err == nil }
 
 // VerifCleanWhiteSpace calls the real cleanWhiteSpace.
 func VerifCleanWhiteSpace(s string) string { return cleanWhiteSpace(s) }
